@@ -235,6 +235,7 @@ inductive Op
   | ephStore (a e : Nat)       -- store a clone of an ephemeron handle inside node a
   | ephUnstore (a e : Nat)
   | collect
+  | collectBorrowed (a : Nat)   -- a collection that runs while node a's `GcRefCell` of edges is mutably borrowed
   deriving Repr, DecidableEq
 
 /-- one mutator step; operations whose precondition does not hold (no such handle) are no-ops
@@ -273,6 +274,17 @@ def step (h : Heap) : Op → Heap
       else h
     | none => h
   | .collect => collect h
+  | .collectBorrowed a =>
+    -- `GcRefCell::trace` / `trace_non_roots` skip a cell that is mutably borrowed: its handles are neither
+    -- counted as non-roots nor traced, so their targets stay rooted — as if the mutator held them
+    match h.nodes[a]? with
+    | some na =>
+      if holds h a then
+        let h1 := { modNode h a (fun x => { x with edges := [] }) with ext := h.ext ++ na.edges }
+        let h2 := collect h1
+        { modNode h2 a (fun x => { x with edges := na.edges }) with ext := na.edges.foldl (fun l t => l.erase t) h2.ext }
+      else h
+    | none => h
 
 def run (ops : List Op) : Heap := ops.foldl step {}
 
